@@ -2472,6 +2472,15 @@ impl Connection {
             }
         };
 
+        let result = match result {
+            Err(e) if was_closed && !matches!(e, ConnectionError::Reset) => {
+                // The connection has ended already: a later packet cannot change the reason
+                debug!("ignoring error after close: {}", e);
+                Ok(())
+            }
+            result => result,
+        };
+
         // State transitions for error cases
         if let Err(conn_err) = result {
             self.error = Some(conn_err.clone());
